@@ -151,6 +151,12 @@ def main(argv):
                 return rp, ok_
             args = r.get('args')
             rep, reproduced = _replay(args)
+            if rep.get('harness_error'):
+                harness_errors.append(f'{c.name}: {rep["harness_error"]} - the code no '
+                                      f'longer goes through the seam the model attaches to')
+                entry['status'] = 'HARNESS-ERROR'
+                per_cond.append(entry)
+                continue
             spurious = []
             # A model value that does not violate anything when run on the real code is an
             # imprecision of the engine's model of some builtin (seen with str.strip() vs
@@ -194,6 +200,10 @@ def main(argv):
                 else:
                     path = write_replay(prop, modname, tier, c.name, args, rep)
                     violations.append((c.name, path, r.get('detail', '')))
+        elif 'SeamBypassed' in r.get('detail', ''):
+            harness_errors.append(f'{c.name}: {r.get("detail", "")[:300]} - the code no longer '
+                                  f'goes through a seam the model attaches to')
+            entry['detail'] = r.get('detail', '')[:400]
         else:
             inconclusive.append(c.name)
             entry['detail'] = r.get('detail', '')[:400]
